@@ -8,7 +8,7 @@
    configuration and the file contents at the moment look_sysfsnode starts, and through hwloc_verif_insert_cb
    every memory object given to hwloc__insert_object_by_cpuset with a NULL root; ocaml/drv_c18.ml compares.
 
-   Paths that are not modelled return [Unmodelled why] (counted, not judged): the KNL quirk, NVIDIA GPU nodes,
+   Paths that are not modelled return [Unmodelled why] (counted, not judged): the KNL quirk,
    node indexes / lists too large for the extracted model, and the one place where the C code reads bytes that
    nobody wrote (distance file ending without separator before all values were found).
    Not part of a request and therefore not modelled: meminfo/hugepages (attributes), memory attributes, DAX
@@ -27,6 +27,8 @@ Record node_files := mkNF {
   nf_acc1 : option (list (list N));                (* names in access1/initiators, readdir order; None: no directory *)
   nf_acc0 : option (list (list N)) }.
 
+Record gpu_files := mkGpu { g_status : file; g_local : file }.   (* gpus/<busid>/numa_status, /sys/bus/pci/devices/<busid>/local_cpus *)
+
 Record nview := mkNV {
   nv_dist : bool;            (* data->use_numa_distances *)
   nv_dcl : bool;             (* data->use_numa_distances_for_cpuless *)
@@ -36,6 +38,8 @@ Record nview := mkNV {
   nv_msc : bool;             (* MemCache type not filtered out *)
   nv_overlap : option Z;     (* atoi(HWLOC_DEBUG_ALLOW_OVERLAPPING_NODE_CPUSETS) if set *)
   nv_nvidia : bool;          (* /proc/driver/nvidia/gpus can be opened *)
+  nv_keep : bool;            (* NVIDIA GPU nodes kept: not POWER, or HWLOC_KEEP_NVIDIA_GPU_NUMA_NODES *)
+  nv_gpus : list gpu_files;  (* its entries, readdir order *)
   nv_online : file;          (* node/online *)
   nv_dir : option (list (list N));   (* names in /sys/devices/system/node, readdir order; None: cannot be opened *)
   nv_nodes : list node_files }.
@@ -118,11 +122,10 @@ Definition list_nodes (v : nview) : option (list N) + string :=
         if existsb (fun i => LIMIT <=? i) idx then inr "huge-node-index"%string
         else
           let set := fold_left (fun acc i => bs_add i acc) idx bs_empty in
-          let els := elements set in
-          (* nbnodes counts the entries, the bitmap holds distinct indexes: calloc leaves the other slots 0 *)
+          (* several entries may denote the same index: the distinct indexes are counted (since /repo bba5c6e) *)
           match idx with
           | [] => inl None                                       (* a node directory without any node<n>: ignored *)
-          | _ => inl (Some (els ++ repeat 0 (List.length idx - List.length els)))
+          | _ => inl (Some (elements set))
           end
     end in
   match read_list (nv_online v) with
@@ -160,6 +163,48 @@ Definition create_nodes (v : nview) (indexes : list N) : list (option (N * bset)
              if bs_intersects seen cs && (allow_overlap v =? 0)%Z then (acc ++ [None], seen)
              else (acc ++ [Some (os, cs)], bs_union seen cs)
          end) indexes ([], bs_empty)).
+
+Definition set_nth {A} (l : list A) (i : nat) (x : A) : list A := firstn i l ++ x :: skipn (S i) l.
+
+(* ---------- NUMA nodes that are NVIDIA GPU memory ---------- *)
+
+(* strstr: what follows the first occurrence of p *)
+Fixpoint find_sub (p s : list N) : option (list N) :=
+  if lprefix p s then Some (skipn (List.length p) s)
+  else match s with [] => None | _ :: t => find_sub p t end.
+Fixpoint c_string (s : list N) : list N := match s with [] => [] | b :: t => if b =? 0 then [] else b :: c_string t end.
+Fixpoint skip_blanks (s : list N) : list N :=
+  match s with b :: t => if (b =? 32) || (b =? 9) then skip_blanks t else s | [] => [] end.
+(* the node number of a numa_status file ("Node: <n>"), as stored in an unsigned *)
+Definition gpu_node (g : gpu_files) : option N :=
+  match read_len (g_status g) 256 with
+  | Some c =>
+      match find_sub (bytes_of_string "Node:") (c_string c) with
+      | Some rest => match atoi (skip_blanks rest ++ [0]) 0 with Ok z => Some (to_unsigned z) | Oob => None end
+      | None => None
+      end
+  | None => None
+  end.
+Fixpoint first_with_os (nodes : list (option (N * bset))) (x : N) (k : nat) : option nat :=
+  match nodes with
+  | [] => None
+  | Some (os, _) :: t => if os =? x then Some k else first_with_os t x (S k)
+  | None :: t => first_with_os t x (S k)
+  end.
+(* the first created node with that os index is either dropped or given the GPU's local cpus (nothing when unreadable) *)
+Definition gpu_nodes (v : nview) (nodes : list (option (N * bset))) : list (option (N * bset)) :=
+  fold_left (fun nodes g =>
+     match gpu_node g with
+     | Some x =>
+         match first_with_os nodes x 0 with
+         | Some k => set_nth nodes k (if nv_keep v then Some (x, match read_mask (g_local g) with Some m => m | None => bs_empty end) else None)
+         | None => nodes
+         end
+     | None => nodes
+     end) (nv_gpus v) nodes.
+(* nodes[] when the trees are built *)
+Definition final_nodes (v : nview) (indexes : list N) : list (option (N * bset)) :=
+  if nv_nvidia v then gpu_nodes v (create_nodes v indexes) else create_nodes v indexes.
 
 (* ---------- distances ---------- *)
 
@@ -263,7 +308,6 @@ Definition mscaches (v : nview) (os : N) : list (N * N) :=
         else chain) entries []
   end.
 
-Definition set_nth {A} (l : list A) (i : nat) (x : A) : list A := firstn i l ++ x :: skipn (S i) l.
 
 Definition tree_requests (v : nview) (os : N) (cs : bset) : list mreq :=
   let ns := bs_single os in
@@ -314,9 +358,7 @@ Definition linux_node_requests (v : nview) : nresult :=
   | inr why => Unmodelled why
   | inl None => Requests []
   | inl (Some indexes) =>
-      let nodes := create_nodes v indexes in
-      if nv_nvidia v then Unmodelled "nvidia-gpu-nodes"
-      else
+      let nodes := final_nodes v indexes in
         let n := List.length indexes in
         let want_dist := nv_dist v && negb (Nat.leb n 1) in
         match (if want_dist then parse_rows v n indexes else inl None) with
